@@ -68,6 +68,7 @@ struct Runner {
     bool searching = true;     // false once the first failure was seen (shrink phase)
     std::chrono::steady_clock::time_point t0 = std::chrono::steady_clock::now();
     double budget = 0;         // seconds; 0 = none
+    double shrink_t0 = -1;
     unsigned case_alarm = 120; // seconds per case before the run is declared hung
 
     double elapsed() const { return std::chrono::duration<double>(std::chrono::steady_clock::now() - t0).count(); }
